@@ -53,9 +53,13 @@ def corpus(seed, n, circles):
             d += '# Legend:\na = {fill:red}\nb = {stroke:blue}\n'
         docs.append(d)
     keys = []
+    plain = [d for d in docs[:n] if '"' not in d and '# Legend:' not in d and '\x1e' not in d]
     colors = ['white', 'black', 'navy', 'orange', '#abc', 'red']
     for i, d in enumerate(docs[:n]):
-        if i % 2:
+        if i % 7 == 3 and plain and '"' not in d and '# Legend:' not in d:
+            # entry 6: a CellBuffer that held another document before; must equal the plain conversion of d
+            keys.append((6, rng.choice(plain) + '\x1e' + d, 'white', 'black', 8.0))
+        elif i % 2:
             keys.append((i % 3, d, 'white', 'black', 8.0))   # entries 0,1,2: the settings are the defaults
         else:
             # the settings entry point with settings that differ from call to call
@@ -247,7 +251,11 @@ def execute(run):
         # every key of the reference is converted in its own fresh process: no history at all
         if entry >= 3:
             d.restart()
-        r = d.conv(doc, entry=entry, flags=7, bg=bg, fill=fill, scale=scale)
+        if entry == 6:
+            # the reference of an edited buffer is the plain conversion of the second document
+            r = d.conv(doc.split('\x1e', 1)[1], entry=3, flags=7, bg=bg, fill=fill, scale=scale)
+        else:
+            r = d.conv(doc, entry=entry, flags=7, bg=bg, fill=fill, scale=scale)
         ref.append(r.out.encode('utf-8', 'surrogateescape') if r.ok else b'PANIC ' + r.out.encode())
     d.close()
     extra = {'keys': keys, 'ref': ref, 'corpus_path': cpath}
